@@ -284,6 +284,28 @@ func init() {
 		if x.op == OpConst && y.op == OpConst {
 			return in.fpConst(64, mathMod(fpConstFloat(x), fpConstFloat(y)))
 		}
+		if y.op == OpConst && fpConstFloat(y) == 2 {
+			// Only "is the result zero" is modelled exactly (that is what
+			// parity tests use): r is +-0 iff x is an even integer, r is
+			// NaN iff x is NaN or infinite, otherwise r is some non-zero
+			// finite value. Pure bit-vector constraints.
+			tt := in.tt
+			r := in.freshVar(64)
+			exp := tt.Extract(x, 62, 52)             // 11 bits
+			man := tt.Zext(tt.Extract(x, 51, 0), 64) // 52 bits
+			e64 := tt.Zext(exp, 64)
+			isZero := tt.Eq(tt.Bin(OpBAnd, x, tt.BV(64, 0x7FFFFFFFFFFFFFFF)), tt.BV(64, 0))
+			special := tt.Eq(exp, tt.BV(11, 0x7FF)) // NaN or Inf
+			big := tt.And(tt.Not(special), tt.Cmp(OpUle, tt.BV(64, 1023+53), e64))
+			inRange := tt.And(tt.Cmp(OpUle, tt.BV(64, 1024), e64), tt.Cmp(OpUle, e64, tt.BV(64, 1023+52)))
+			sh := tt.Bin(OpSub, e64, tt.BV(64, 1024)) // E-1
+			low := tt.Bin(OpBAnd, tt.Bin(OpShl, man, sh), tt.BV(64, 0x000FFFFFFFFFFFFF))
+			even := tt.Or(isZero, tt.Or(big, tt.And(inRange, tt.Eq(low, tt.BV(64, 0)))))
+			rZero := tt.Eq(tt.Bin(OpBAnd, r, tt.BV(64, 0x7FFFFFFFFFFFFFFF)), tt.BV(64, 0))
+			in.addPC(tt.Eq(rZero, even))
+			in.addPC(tt.Eq(in.fpIsNaN(r), special))
+			return r
+		}
 		in.unsupported("math.Mod on symbolic operands")
 		return nil
 	}
